@@ -27,6 +27,16 @@
 \* Behaviour = build phase (Child, AddGeom*, Close) followed by one action per derivation stage (Geom, Mesh, Total, InA,
 \* InB, Finish).  Finish publishes `ev`, the oracle of the replay (checks/c35.py compiles the described model with the
 \* real compiler and compares body_mass, body_ipos and the tensor rebuilt from body_iquat / body_inertia).
+\*
+\* The model description is an mjSpec that LIVES ON: after a compile the specification may EDIT it (EditGroup, EditRange,
+\* EditDensity / EditMass, EditSize, EditPos) and compile it again (Recompile: mj_recompile, or mj_compile a second time on
+\* the same spec).  A geom counts towards the body's inertia iff its group lies in compiler.inertiagrouprange.  The
+\* derived per-geom record `gp` models what the compiler object keeps between compiles: the Geom stage recomputes it
+\* only for the geoms selected now (the others keep what an earlier compile left there).  The property
+\*   HistoryIndependent : after ANY history of edits and recompiles the compiled mass / centre of mass / inertia of every
+\*                        body equal those of a FRESH spec with the same current content
+\* holds because Total / InA / InB count a geom by its group (Design = "group"); with Design = "massonly" (count whatever
+\* carries mass) TLC refutes it - the specification-level negative control for stale compile state.
 \* Rand = FALSE enumerates every choice; Rand = TRUE draws each choice with RandomElement (TLC -simulate, large lattice).
 EXTENDS Integers, Sequences, FiniteSets, TLC
 
@@ -42,6 +52,14 @@ CONSTANTS MaxGeoms,
           ChildModes,   \* subset of {"none", "fused", "separate"}
           ChildPoss, ChildRots,
           TotalMasses,  \* 0: no settotalmass; T > 0: compiler settotalmass = T
+          Groups,       \* geom groups
+          Ranges,       \* values of compiler.inertiagrouprange <<lo, hi>>
+          MaxCompiles,  \* compiles per behaviour (1: no edit-and-recompile histories)
+          MaxEdits,     \* edits between two compiles
+          EditKinds,    \* subset of {"group", "range", "density", "size", "pos"}
+          Hows,         \* subset of {"recompile", "compile2"}: mj_recompile | mj_compile again on the same spec
+          Design,       \* "group": a geom counts iff its group is in range (the documented rule); "massonly": it counts iff
+                        \* its kept mass is positive (deliberately wrong: negative control)
           Rand
 
 \* ------------------------------------------------------------------------------------------------
@@ -112,8 +130,14 @@ VARIABLES stage,  \* "child" | "build" | "geom" | "mesh" | "total" | "inA" | "in
           mp,     \* per mesh geom: integrals over the triangles (<< >> for the other kinds)
           tot,    \* per reporting body: [M, S]
           inA, inB,   \* per reporting body: 12 M x inertia tensor about the centre of mass (two derivations)
+          range,  \* compiler.inertiagrouprange
+          ncomp,  \* compiles finished so far
+          edits,  \* edits applied since the last compile
+          how,    \* how the running compile was started: "compile" | "recompile" | "compile2"
+          hist,   \* one record per finished compile: [how, edits, geoms, range, bodies]
           ev
-vars == <<stage, G, child, tmass, gp, mp, tot, inA, inB, ev>>
+vars == <<stage, G, child, tmass, gp, mp, tot, inA, inB, range, ncomp, edits, how, hist, ev>>
+life == <<range, ncomp, edits, how, hist>>
 
 ng == Len(G)
 IsMesh(g)  == g.kind \in {"mesh", "meshshell"}
@@ -123,18 +147,26 @@ OneOf(S)  == CHOOSE x \in S : TRUE
 
 Init == /\ stage = "child" /\ G = << >> /\ child = << >> /\ tmass = 0 /\ gp = << >> /\ mp = << >> /\ tot = << >>
         /\ inA = << >> /\ inB = << >> /\ ev = [op |-> "init"]
+        /\ range = <<0, 5>> /\ ncomp = 0 /\ edits = << >> /\ how = "compile" /\ hist = << >>
 
-Child(mode, cp, cr, tm) ==
+\* a geom is selected for inertia inference iff its group lies in the range; the moving body b1 must keep a selected geom
+InRange(g, rg) == rg[1] <= g.group /\ g.group <= rg[2]
+Selected(g) == InRange(g, range)
+ValidContent(gs, rg) == \E i \in 1..Len(gs) : gs[i].own = 1 /\ InRange(gs[i], rg)
+
+Child(mode, cp, cr, tm, rg) ==
   /\ stage = "child"
   /\ (~Rand /\ mode = "none") => (cp = OneOf(ChildPoss) /\ cr = OneOf(ChildRots))     \* unused choices: one representative
   /\ child' = [mode |-> mode, pos |-> IF mode = "none" THEN Z3 ELSE cp, R |-> IF mode = "none" THEN I3 ELSE cr]
   /\ tmass' = tm
+  /\ range' = rg
   /\ stage' = "build"
-  /\ UNCHANGED <<G, gp, mp, tot, inA, inB, ev>>
+  /\ UNCHANGED <<G, gp, mp, tot, inA, inB, ev, ncomp, edits, how, hist>>
 
 \* geoms of the child body come after at least one geom of b1 (b1 must have mass: it carries the joint)
-AddGeom(kind, hs, pos, R, dens, moff, tess, mmode, own) ==
+AddGeom(kind, hs, pos, R, dens, moff, tess, mmode, own, grp) ==
   /\ stage = "build" /\ ng < MaxGeoms
+  /\ (ng = 0) => (range[1] <= grp /\ grp <= range[2])
   /\ own = 2 => (child.mode # "none" /\ ng >= 1)
   /\ (ng = 0) => own = 1
   /\ (~Rand /\ kind \notin {"mesh", "meshshell"}) => (moff = OneOf(MeshOffs) /\ tess = OneOf(Tess))
@@ -142,12 +174,12 @@ AddGeom(kind, hs, pos, R, dens, moff, tess, mmode, own) ==
   /\ G' = Append(G, [kind |-> kind, hs |-> hs, pos |-> pos, R |-> R, dens |-> dens,
                      moff |-> IF kind \in {"mesh", "meshshell"} THEN moff ELSE Z3,
                      tess |-> IF kind \in {"mesh", "meshshell"} THEN tess ELSE 0,
-                     mmode |-> IF kind = "mesh" THEN mmode ELSE "exact", own |-> own])
-  /\ UNCHANGED <<stage, child, tmass, gp, mp, tot, inA, inB, ev>>
+                     mmode |-> IF kind = "mesh" THEN mmode ELSE "exact", own |-> own, group |-> grp])
+  /\ UNCHANGED <<stage, child, tmass, gp, mp, tot, inA, inB, ev, life>>
 
 Close == /\ stage = "build" /\ ng >= 1
          /\ stage' = "geom"
-         /\ UNCHANGED <<G, child, tmass, gp, mp, tot, inA, inB, ev>>
+         /\ UNCHANGED <<G, child, tmass, gp, mp, tot, inA, inB, ev, life>>
 
 \* ------------------------------------------------------------------------------------------------
 \* Geom: mass, centre and inertia of every geom from the closed forms, expressed in the reporting body's frame
@@ -179,10 +211,18 @@ GeomProps(g) ==
   IN [m |-> GMass(g), c |-> VAdd(OwnP(g), MV(OwnR(g), cl)),
       I12 |-> RDRt(Rw, LocalI12(g)), rb |-> RepBody(g)]
 
+\* what a fresh compiler object holds for a geom it never compiled with inertia inference: no mass
+NoProps(g) == [m |-> 0, c |-> Z3, I12 |-> Z33, rb |-> RepBody(g)]
+\* only the geoms selected NOW are recomputed; the others keep the record of the last compile that selected them
 Geom == /\ stage = "geom"
-        /\ gp' = [i \in 1..ng |-> GeomProps(G[i])]
+        /\ gp' = [i \in 1..ng |-> IF Selected(G[i]) THEN GeomProps(G[i])
+                                   ELSE IF i <= Len(gp) THEN [gp[i] EXCEPT !.rb = RepBody(G[i])] ELSE NoProps(G[i])]
         /\ stage' = "mesh"
-        /\ UNCHANGED <<G, child, tmass, mp, tot, inA, inB, ev>>
+        /\ UNCHANGED <<G, child, tmass, mp, tot, inA, inB, ev, life>>
+\* the same for a fresh spec of the current content (no history)
+FreshGp == [i \in 1..ng |-> IF Selected(G[i]) THEN GeomProps(G[i]) ELSE NoProps(G[i])]
+\* which geoms a body sums over
+Counted(p, i) == p[i].m > 0 /\ (Design = "group" => Selected(G[i]))
 
 \* ------------------------------------------------------------------------------------------------
 \* Mesh: integrals over the triangle soup (mesh frame)
@@ -206,63 +246,107 @@ MeshInt(g) ==
 Mesh == /\ stage = "mesh"
         /\ mp' = [i \in 1..ng |-> IF IsMesh(G[i]) THEN MeshInt(G[i]) ELSE << >>]
         /\ stage' = "total"
-        /\ UNCHANGED <<G, child, tmass, gp, tot, inA, inB, ev>>
+        /\ UNCHANGED <<G, child, tmass, gp, tot, inA, inB, ev, life>>
 
 \* ------------------------------------------------------------------------------------------------
 \* Total, InA, InB per reporting body
 \* ------------------------------------------------------------------------------------------------
 RBs == IF child.mode = "separate" THEN {1, 2} ELSE {1}
-Of(r) == {i \in 1..ng : gp[i].rb = r}
-Total == /\ stage = "total"
-         /\ tot' = [r \in RBs |-> [M |-> SumN([i \in 1..ng |-> IF gp[i].rb = r THEN gp[i].m ELSE 0], ng),
-                                    S |-> VSumN([i \in 1..ng |-> IF gp[i].rb = r THEN VScl(gp[i].m, gp[i].c) ELSE Z3], ng)]]
-         /\ stage' = "inA"
-         /\ UNCHANGED <<G, child, tmass, gp, mp, inA, inB, ev>>
-
+\* the derivations, as operators of the per-geom records p (gp after a history, FreshGp for a fresh spec)
+CntOf(p, r) == {i \in 1..ng : Counted(p, i) /\ p[i].rb = r}
+TotOf(p, r) == [M |-> SumN([i \in 1..ng |-> IF i \in CntOf(p, r) THEN p[i].m ELSE 0], ng),
+                S |-> VSumN([i \in 1..ng |-> IF i \in CntOf(p, r) THEN VScl(p[i].m, p[i].c) ELSE Z3], ng)]
 \* A: rotated geom tensors + pairwise parallel-axis terms; everything times 12 M
-PairTerm(i, j) == MScl(12 * gp[i].m * gp[j].m, PAx(VSub(gp[i].c, gp[j].c)))
-RECURSIVE PairSum(_, _, _)
-PairSum(r, i, j) == IF i > ng THEN Z33
-                    ELSE IF j > ng THEN PairSum(r, i + 1, i + 2)
-                    ELSE MAdd(IF gp[i].rb = r /\ gp[j].rb = r THEN PairTerm(i, j) ELSE Z33, PairSum(r, i, j + 1))
-InertiaA == /\ stage = "inA"
-            /\ inA' = [r \in RBs |-> MAdd(MScl(tot[r].M, MSumN([i \in 1..ng |-> IF gp[i].rb = r THEN gp[i].I12 ELSE Z33], ng)),
-                                          PairSum(r, 1, 2))]
-            /\ stage' = "inB"
-            /\ UNCHANGED <<G, child, tmass, gp, mp, tot, inB, ev>>
-
+PairTerm(p, i, j) == MScl(12 * p[i].m * p[j].m, PAx(VSub(p[i].c, p[j].c)))
+RECURSIVE PairSum(_, _, _, _)
+PairSum(p, r, i, j) == IF i > ng THEN Z33
+                       ELSE IF j > ng THEN PairSum(p, r, i + 1, i + 2)
+                       ELSE MAdd(IF i \in CntOf(p, r) /\ j \in CntOf(p, r) THEN PairTerm(p, i, j) ELSE Z33, PairSum(p, r, i, j + 1))
+InAOf(p, r) == MAdd(MScl(TotOf(p, r).M, MSumN([i \in 1..ng |-> IF i \in CntOf(p, r) THEN p[i].I12 ELSE Z33], ng)),
+                    PairSum(p, r, 1, 2))
 \* B: tensors about the body origin, then one shift by the centre of mass c = S / M:  M (|c|^2 1 - c c') = PAx(S) / M
-AboutOrigin(i) == MAdd(gp[i].I12, MScl(12 * gp[i].m, PAx(gp[i].c)))
+AboutOrigin(p, i) == MAdd(p[i].I12, MScl(12 * p[i].m, PAx(p[i].c)))
+InBOf(p, r) == MSub(MScl(TotOf(p, r).M, MSumN([i \in 1..ng |-> IF i \in CntOf(p, r) THEN AboutOrigin(p, i) ELSE Z33], ng)),
+                    MScl(12, PAx(TotOf(p, r).S)))
+Of(r) == CntOf(gp, r)
+
+Total == /\ stage = "total"
+         /\ tot' = [r \in RBs |-> TotOf(gp, r)]
+         /\ stage' = "inA"
+         /\ UNCHANGED <<G, child, tmass, gp, mp, inA, inB, ev, life>>
+InertiaA == /\ stage = "inA"
+            /\ inA' = [r \in RBs |-> InAOf(gp, r)]
+            /\ stage' = "inB"
+            /\ UNCHANGED <<G, child, tmass, gp, mp, tot, inB, ev, life>>
 InertiaB == /\ stage = "inB"
-            /\ inB' = [r \in RBs |-> MSub(MScl(tot[r].M, MSumN([i \in 1..ng |-> IF gp[i].rb = r THEN AboutOrigin(i) ELSE Z33], ng)),
-                                          MScl(12, PAx(tot[r].S)))]
+            /\ inB' = [r \in RBs |-> InBOf(gp, r)]
             /\ stage' = "fin"
-            /\ UNCHANGED <<G, child, tmass, gp, mp, tot, inA, ev>>
+            /\ UNCHANGED <<G, child, tmass, gp, mp, tot, inA, ev, life>>
 
 \* ------------------------------------------------------------------------------------------------
 \* Finish: publish.  settotalmass T scales every mass and inertia by T / (total mass of the model)
 \*   mass = mnum / mden, com = S / M, inertia tensor = I / iden  (xx, yy, zz, xy, xz, yz)
 \* ------------------------------------------------------------------------------------------------
-MTot == SumN([i \in 1..ng |-> gp[i].m], ng)
+MTot == SumN([i \in 1..ng |-> IF \E r \in RBs : i \in Of(r) THEN gp[i].m ELSE 0], ng)
 Pub(r) == LET M == tot[r].M  A == inA[r]  k == IF tmass > 0 THEN tmass ELSE 1  d == IF tmass > 0 THEN MTot ELSE 1 IN
-          [id |-> r, mnum |-> k * M, mden |-> d, S |-> tot[r].S, M |-> M,
-           I |-> <<A[1][1], A[2][2], A[3][3], A[1][2], A[1][3], A[2][3]>>, inum |-> k, iden |-> 12 * M * d,
-           ngeom |-> Cardinality(Of(r))]
+          IF M = 0 THEN [id |-> r, zero |-> TRUE, mnum |-> 0, mden |-> 1, S |-> Z3, M |-> 1, I |-> <<0, 0, 0, 0, 0, 0>>,
+                         inum |-> 1, iden |-> 1, ngeom |-> 0]
+          ELSE [id |-> r, zero |-> FALSE, mnum |-> k * M, mden |-> d, S |-> tot[r].S, M |-> M,
+                I |-> <<A[1][1], A[2][2], A[3][3], A[1][2], A[1][3], A[2][3]>>, inum |-> k, iden |-> 12 * M * d,
+                ngeom |-> Cardinality(Of(r))]
+Bodies == IF child.mode = "separate" THEN <<Pub(1), Pub(2)>> ELSE <<Pub(1)>>
 Finish == /\ stage = "fin"
-          /\ ev' = [op |-> "model", geoms |-> G, child |-> child, tmass |-> tmass,
+          /\ hist' = Append(hist, [how |-> how, edits |-> edits, geoms |-> G, range |-> range, bodies |-> Bodies])
+          /\ ev' = [op |-> "model", geoms |-> G, child |-> child, tmass |-> tmass, range |-> range,
                     verts |-> [i \in 1..ng |-> IF IsMesh(G[i]) THEN MeshVerts(G[i].hs, G[i].moff) ELSE << >>],
                     faces |-> [i \in 1..ng |-> IF IsMesh(G[i]) THEN Tris(G[i].tess) ELSE << >>],
-                    bodies |-> IF child.mode = "separate" /\ Of(2) # {} THEN <<Pub(1), Pub(2)>> ELSE <<Pub(1)>>]
+                    bodies |-> Bodies, hist |-> hist',
+                    final |-> (ncomp + 1 >= MaxCompiles \/ child.mode = "fused")]
+          /\ ncomp' = ncomp + 1 /\ edits' = << >>
           /\ stage' = "done"
-          /\ UNCHANGED <<G, child, tmass, gp, mp, tot, inA, inB>>
+          /\ UNCHANGED <<G, child, tmass, gp, mp, tot, inA, inB, range, how>>
 
-Next == \/ \E mode \in Pick(ChildModes), cp \in Pick(ChildPoss), cr \in Pick(ChildRots), tm \in Pick(TotalMasses) :
-              Child(mode, cp, cr, tm)
+\* ------------------------------------------------------------------------------------------------
+\* the spec lives on: edits of the compiled spec, then a second compile of the SAME spec object.
+\* (a fused static child is deleted from the spec by the first compile, so such a spec is not edited further here)
+\* ------------------------------------------------------------------------------------------------
+CanEdit == stage = "done" /\ ncomp < MaxCompiles /\ child.mode # "fused" /\ Len(edits) < MaxEdits
+EditGeom(op, i, field, val) ==
+  /\ CanEdit /\ op \in EditKinds /\ i \in 1..ng /\ G[i][field] # val
+  /\ ValidContent([G EXCEPT ![i][field] = val], range)
+  /\ G' = [G EXCEPT ![i][field] = val]
+  /\ edits' = Append(edits, [op |-> op, i |-> i, val |-> val])
+  /\ UNCHANGED <<stage, child, tmass, gp, mp, tot, inA, inB, ev, range, ncomp, how, hist>>
+EditGroup(i, grp)  == EditGeom("group", i, "group", grp)
+EditDensity(i, d)  == EditGeom("density", i, "dens", d)            \* the explicit mass for kind "boxmass" (EditMass)
+EditSize(i, hs)    == ~IsMesh(G[i]) /\ EditGeom("size", i, "hs", hs)
+EditPos(i, pos)    == EditGeom("pos", i, "pos", pos)
+EditRange(rg) ==
+  /\ CanEdit /\ "range" \in EditKinds /\ rg # range /\ ValidContent(G, rg)
+  /\ range' = rg
+  /\ edits' = Append(edits, [op |-> "range", i |-> 0, val |-> rg])
+  /\ UNCHANGED <<stage, G, child, tmass, gp, mp, tot, inA, inB, ev, ncomp, how, hist>>
+Recompile(h) ==
+  /\ stage = "done" /\ ncomp < MaxCompiles /\ child.mode # "fused"
+  /\ how' = h
+  /\ stage' = "geom"
+  /\ UNCHANGED <<G, child, tmass, gp, mp, tot, inA, inB, ev, range, ncomp, edits, hist>>
+
+Next == \/ \E mode \in Pick(ChildModes), cp \in Pick(ChildPoss), cr \in Pick(ChildRots), tm \in Pick(TotalMasses),
+              rg \in Pick(Ranges) : Child(mode, cp, cr, tm, rg)
         \/ \E kind \in Pick(Kinds), hs \in Pick(HalfSizes), pos \in Pick(Offsets), R \in Pick(Rots), dens \in Pick(Densities),
               moff \in Pick(MeshOffs), tess \in Pick(Tess), mmode \in Pick(MeshModes),
-              own \in Pick(IF stage = "build" /\ ng >= 1 /\ child.mode # "none" THEN {1, 2} ELSE {1}) :
-              AddGeom(kind, hs, pos, R, dens, moff, tess, mmode, own)
+              own \in Pick(IF stage = "build" /\ ng >= 1 /\ child.mode # "none" THEN {1, 2} ELSE {1}),
+              grp \in Pick(IF stage = "build" /\ ng = 0 /\ {x \in Groups : range[1] <= x /\ x <= range[2]} # {}
+                           THEN {x \in Groups : range[1] <= x /\ x <= range[2]} ELSE Groups) : AddGeom(kind, hs, pos, R, dens, moff, tess, mmode, own, grp)
         \/ Close \/ Geom \/ Mesh \/ Total \/ InertiaA \/ InertiaB \/ Finish
+        \/ (stage = "done" /\ ncomp < MaxCompiles /\
+              \/ \E i \in Pick(1..ng), grp \in Pick(Groups) : EditGroup(i, grp)
+              \/ \E i \in Pick(1..ng), d \in Pick(Densities) : EditDensity(i, d)
+              \/ \E i \in Pick(1..ng), hs \in Pick(HalfSizes) : EditSize(i, hs)
+              \/ \E i \in Pick(1..ng), pos \in Pick(Offsets) : EditPos(i, pos)
+              \/ \E rg \in Pick(Ranges) : EditRange(rg)
+              \/ \E h \in Pick(Hows) : Recompile(h))
 Spec == Init /\ [][Next]_vars
 
 \* ------------------------------------------------------------------------------------------------
@@ -272,10 +356,12 @@ Spec == Init /\ [][Next]_vars
 TypeOK == /\ stage \in {"child", "build", "geom", "mesh", "total", "inA", "inB", "fin", "done"}
           /\ ng <= MaxGeoms
           /\ \A i \in 1..ng : G[i].R \in Rot24 /\ G[i].own \in {1, 2}
-          /\ stage = "mesh" => \A i \in 1..ng : gp[i].m > 0
+          /\ stage = "mesh" => \A i \in 1..ng : Selected(G[i]) => gp[i].m > 0
+          /\ ncomp <= MaxCompiles /\ Len(hist) = ncomp /\ Len(edits) <= MaxEdits
+          /\ (stage \notin {"child", "build"}) => ValidContent(G, range)
 
 \* the rotated geom tensor stays diagonal (axis-aligned boxes) and keeps its trace and its set of principal moments
-GeomTensorProper == stage = "mesh" => \A i \in 1..ng :
+GeomTensorProper == stage = "mesh" => \A i \in 1..ng : Selected(G[i]) =>
     /\ Sym(gp[i].I12)
     /\ gp[i].I12[1][2] = 0 /\ gp[i].I12[1][3] = 0 /\ gp[i].I12[2][3] = 0
     /\ LET d == LocalI12(G[i]) IN
@@ -321,13 +407,19 @@ TriangleOnDirections == stage = "fin" => \A r \in RBs : (Of(r) # {} /\ MaxAbs(in
 SingleGeom == stage = "fin" => \A r \in RBs : Cardinality(Of(r)) = 1 =>
     LET i == CHOOSE k \in Of(r) : TRUE IN tot[r].S = VScl(tot[r].M, gp[i].c) /\ inA[r] = MScl(tot[r].M, gp[i].I12)
 \* the published record is the derived one
-Published == stage = "done" => /\ ev.op = "model"
+Published == stage = "done" => /\ ev.op = "model" /\ ev.hist = hist /\ hist[Len(hist)].bodies = ev.bodies
                                /\ \A k \in 1..Len(ev.bodies) : LET b == ev.bodies[k] IN
-                                     b.M = tot[b.id].M /\ b.S = tot[b.id].S /\ b.mnum > 0 /\ b.iden > 0
+                                     ~b.zero => (b.M = tot[b.id].M /\ b.S = tot[b.id].S /\ b.mnum > 0 /\ b.iden > 0)
+\* after any history of edits and recompiles the compiled properties are those of a fresh spec with the current content
+HistoryIndependent == stage = "fin" => \A r \in RBs : tot[r] = TotOf(FreshGp, r) /\ inA[r] = InAOf(FreshGp, r)
+\* ... in particular a geom outside the range contributes nothing, whatever it contributed before
+UnselectedCountsNothing == stage = "fin" => \A r \in RBs :
+    tot[r].M = SumN([i \in 1..ng |-> IF Selected(G[i]) /\ RepBody(G[i]) = r THEN GMass(G[i]) ELSE 0], ng)
 
 \* deliberately false claims (negative controls of the specification itself)
 NegNoProducts == stage = "fin" => \A r \in RBs : inA[r][1][2] = 0 /\ inA[r][1][3] = 0 /\ inA[r][2][3] = 0
 NegComAtFirstGeom == stage = "fin" => tot[1].S = VScl(tot[1].M, gp[1].c)
+\* (the third negative control is HistoryIndependent itself under Design = "massonly")
 
 \* ------------------------------------------------------------------------------------------------
 \* constants of the configurations (cfg files cannot hold tuples)
@@ -372,4 +464,17 @@ CP_Cube == {-1, 0, 1} \X {-1, 0, 1} \X {-1, 0, 1}
 TM_Off == {0}
 TM_Some == {0, 7}
 TM_Many == {0, 1, 7, 12}
+G_Zero == {0}
+G_Two == {0, 3}
+G_All == 0..5
+RG_All == {<<0, 5>>}
+RG_Two == {<<0, 5>>, <<0, 2>>}
+RG_Many == {<<0, 5>>, <<0, 2>>, <<3, 5>>, <<1, 4>>, <<0, 0>>}
+E_None == {}
+E_All == {"group", "range", "density", "size", "pos"}
+E_Sel == {"group", "range", "density"}
+E_Quick == {"group", "range", "density", "size"}
+E_GR == {"group", "range"}
+HW_Both == {"recompile", "compile2"}
+C_NoFuse == {"none", "separate"}
 =============================================================================
